@@ -216,7 +216,7 @@ pub fn gen_exchange(t: &mut Tape, allow_close: bool) -> ExchangeSpec {
     };
     let refused = goes_await && await_mode == AwaitMode::Look && server_pre == ServerPre::Refuse;
     let status = if refused {
-        *t.pick(&[403u16, 417, 401, 200, 302, 500, 413])
+        *t.pick(&[403u16, 417, 401, 200, 302, 500, 413, 102, 199, 204])
     } else if t.chance(20) {
         // any final status, assigned or not
         t.range(101, 999) as u16
